@@ -153,8 +153,69 @@ theorem expand_congr (sc1 sc2 : Scope) (S : List String)
       simp only
       rw [ih v' (substOnce_refs sc2 S hC v v' h hs)]
 
+/-- one round of substitution that succeeds in a scope whose bindings (on `S`) are also bindings
+    of a second scope gives the same value there -/
+theorem substOnce_sub (sc1 sc2 : Scope) (S : List String)
+    (hA : ∀ n ∈ S, ∀ v, lookup sc1 n = some v → lookup sc2 n = some v) :
+    ∀ v v' : Value, (∀ n ∈ refsOf v, n ∈ S) → substOnce sc1 v = .ok v' → substOnce sc2 v = .ok v' := by
+  intro v
+  induction v with
+  | nil => intro v' _ h; exact h
+  | cons t r ih =>
+    intro v' h hs
+    cases t with
+    | lit s =>
+      simp only [substOnce] at hs ⊢
+      cases hr : substOnce sc1 r with
+      | error e => simp [hr, bind, Except.bind] at hs
+      | ok r' =>
+        rw [ih r' (by simpa [refsOf] using h) hr]
+        simpa [hr] using hs
+    | ref n =>
+      have h1 : n ∈ S := h n (by simp [refsOf])
+      simp only [substOnce] at hs ⊢
+      cases hl : lookup sc1 n with
+      | none => simp [hl] at hs
+      | some w =>
+        rw [hA n h1 w hl]
+        simp only [hl] at hs ⊢
+        cases hr : substOnce sc1 r with
+        | error e => simp [hr, bind, Except.bind] at hs
+        | ok r' =>
+          rw [ih r' (fun m hm => h m (by simp [refsOf, hm])) hr]
+          simpa [hr] using hs
+
+/-- **sub-scope form of `expand`**: a substitution that succeeds in a scope whose bindings (on a
+    set of names `S` that contains the references of the value and is closed under the bindings of
+    the second scope) are also bindings of a second scope gives the same value there -/
+theorem expand_sub (sc1 sc2 : Scope) (S : List String)
+    (hA : ∀ n ∈ S, ∀ v, lookup sc1 n = some v → lookup sc2 n = some v)
+    (hC : ∀ n ∈ S, ∀ w, lookup sc2 n = some w → ∀ r ∈ refsOf w, r ∈ S) :
+    ∀ (fuel : Nat) (v v' : Value), (∀ n ∈ refsOf v, n ∈ S) →
+      expand sc1 fuel v = .ok v' → expand sc2 fuel v = .ok v' := by
+  intro fuel
+  induction fuel with
+  | zero => intro v v' _ h; simpa [expand] using h
+  | succ k ih =>
+    intro v v' h he
+    simp only [expand] at he ⊢
+    cases hr : hasRef v with
+    | false => simpa [hr] using he
+    | true =>
+      simp only [hr, if_true] at he ⊢
+      cases hs : substOnce sc1 v with
+      | error e => simp [hs] at he
+      | ok w =>
+        have hs2 := substOnce_sub sc1 sc2 S hA v w h hs
+        simp only [hs] at he
+        simp only [hs2]
+        exact ih w v' (substOnce_refs sc2 S hC v w h hs2) he
+
+/-- congruence of `resolveSel`: since an interpolation is substituted until no variable is left,
+    the set `S` must be closed under the bindings (as for `expand_congr`) -/
 theorem resolveSel_congr (sc1 sc2 : Scope) (S : List String)
-    (hA : ∀ n ∈ S, lookup sc1 n = lookup sc2 n) :
+    (hA : ∀ n ∈ S, lookup sc1 n = lookup sc2 n)
+    (hC : ∀ n ∈ S, ∀ w, lookup sc2 n = some w → ∀ r ∈ refsOf w, r ∈ S) :
     ∀ sel : List STok, (∀ n ∈ interpsOf sel, n ∈ S) → resolveSel sc1 sel = resolveSel sc2 sel := by
   intro sel
   induction sel with
@@ -168,12 +229,14 @@ theorem resolveSel_congr (sc1 sc2 : Scope) (S : List String)
     | interp n =>
       have h1 : n ∈ S := h n (by simp [interpsOf])
       have := ih (fun m hm => h m (by simp [interpsOf, hm]))
-      simp only [resolveSel, this, hA n h1]
+      have he := expand_congr sc1 sc2 S hA hC 64 [.ref n] (by simpa [refsOf] using h1)
+      simp only [resolveSel, this, he]
 
-/-- a selector that could be resolved in a scope whose bindings (on the interpolated names) are
-    also bindings of a second scope resolves to the same text there -/
+/-- a selector that could be resolved in a scope whose bindings (on the names reachable from the
+    interpolated names) are also bindings of a second scope resolves to the same text there -/
 theorem resolveSel_sub (sc1 sc2 : Scope) (S : List String)
-    (hA : ∀ n ∈ S, ∀ v, lookup sc1 n = some v → lookup sc2 n = some v) :
+    (hA : ∀ n ∈ S, ∀ v, lookup sc1 n = some v → lookup sc2 n = some v)
+    (hC : ∀ n ∈ S, ∀ w, lookup sc2 n = some w → ∀ r ∈ refsOf w, r ∈ S) :
     ∀ (sel : List STok) (s : List String), (∀ n ∈ interpsOf sel, n ∈ S) →
       resolveSel sc1 sel = .ok s → resolveSel sc2 sel = .ok s := by
   intro sel
@@ -192,10 +255,10 @@ theorem resolveSel_sub (sc1 sc2 : Scope) (S : List String)
     | interp n =>
       have h1 : n ∈ S := h n (by simp [interpsOf])
       simp only [resolveSel] at hs ⊢
-      cases hl : lookup sc1 n with
-      | none => simp [hl] at hs
-      | some w =>
-        rw [hA n h1 w hl]
+      cases hl : expand sc1 64 [.ref n] with
+      | error e => simp [hl] at hs
+      | ok w =>
+        rw [expand_sub sc1 sc2 S hA hC 64 [.ref n] w (by simpa [refsOf] using h1) hl]
         simp only [hl] at hs ⊢
         cases hr : resolveSel sc1 r with
         | error e => simp [hr, bind, Except.bind] at hs
@@ -614,17 +677,21 @@ theorem model_item (fuel : Nat) (defs : List (String × Value)) :
       rw [passG_rule, passEItem_rule, specItem_rule]
       have hsel : ∀ n ∈ interpsOf sel, n ∈ reach defs (usesOf (.rule sel body)) :=
         fun n hn => subset_reach defs _ n (usesOf_rule_sel sel body n hn)
+      -- the reachable names are closed under the bindings of the environment (as in the `.decl` case)
+      have hcl : ∀ n ∈ reach defs (usesOf (.rule sel body)), ∀ w, lookup env n = some w →
+          ∀ r ∈ refsOf w, r ∈ reach defs (usesOf (.rule sel body)) :=
+        fun n hn w hw => reach_closed defs _ n hn w (hV n w hw)
       have hname : ruleName esc sel (match resolveSel ([] :: gsc) sel with
                       | .ok s => some s | .error _ => none) = resolveSel env sel := by
         cases hg : resolveSel ([] :: gsc) sel with
         | ok s =>
           simp only [ruleName]
           exact (resolveSel_sub ([] :: gsc) env _
-            (fun n hn v hv => hS n hn v (by rwa [lookup_nil_cons] at hv)) sel s hsel hg).symm
+            (fun n hn v hv => hS n hn v (by rwa [lookup_nil_cons] at hv)) hcl sel s hsel hg).symm
         | error e =>
           simp only [ruleName]
           exact resolveSel_congr ([] :: esc) env _
-            (fun n hn => by rw [lookup_nil_cons]; exact hA n hn) sel hsel
+            (fun n hn => by rw [lookup_nil_cons]; exact hA n hn) hcl sel hsel
       rw [hname]
       cases resolveSel env sel with
       | error e => rfl
